@@ -163,30 +163,43 @@ def transformFieldSet (enums : List Enum) (fields : List Field) (name : String) 
   pure { cfg := cfg, name := name, byteOrder := bo, bitOrder := bito, sizeBits := sizeBits,
          reset := reset.getD (List.replicate ((sizeBits + 7) / 8) 0), refResets := refResets, fields := fs }
 
+/-- `find_refs`: the refs (of any kind) whose override names `rname`. -/
+def refsTo (objs : List Object) (rname : String) : List RefObject :=
+  objs.filterMap fun x => match x with
+    | .ref rf => if rf.override.name == rname then some rf else none
+    | _ => none
+
+/-- The constructor a ref contributes to its target register's field set: `new_as_<ref>` with the
+    override's bytes when it overrides the reset value, nothing otherwise. -/
+def refResetStep (rf : RefObject) : M (Option (String × List Nat)) :=
+  match rf.override with
+  | .register ov => do
+    match ← resetBytes ov.reset with
+    | some a => pure (some (rf.name, a))
+    | none => pure none
+  | _ => throw (.panic "ref_must_be_register")
+
+/-- The field sets one object contributes (`transform_field_sets`, the body of its loop): a register
+    its own set with the `new_as_<ref>` constructors of the refs that override its reset value, a
+    command its input and output set, anything else nothing. `objs` is the flattened device. -/
+def fieldSetsOfObject (objs : List Object) (enums : List Enum) (o : Object) : M (List LFieldSet) :=
+  match o with
+  | .register r => do
+    let overrides ← (refsTo objs r.name).filterMapM refResetStep
+    let bo ← match r.byteOrder with | some b => pure b | none => throw (.panic "byte_order_unwrap")
+    let fs ← transformFieldSet enums r.fields r.name r.cfg bo r.bitOrder r.sizeBits
+      (← resetBytes r.reset) overrides
+    pure [fs]
+  | .command c => do
+    let bo ← match c.byteOrder with | some b => pure b | none => throw (.panic "byte_order_unwrap")
+    let i ← transformFieldSet enums c.inFields s!"{c.name}FieldsIn" c.cfg bo c.bitOrder c.sizeBitsIn none []
+    let o ← transformFieldSet enums c.outFields s!"{c.name}FieldsOut" c.cfg bo c.bitOrder c.sizeBitsOut none []
+    pure [i, o]
+  | _ => pure []
+
 def transformFieldSets (d : Device) (enums : List Enum) : M (List LFieldSet) := do
   let objs := allObjects d.objects
-  let sets ← objs.mapM fun o => match o with
-    | .register r => do
-      -- find_refs: every ref (of any kind) whose target name equals this register's name
-      let refs := objs.filterMap fun x => match x with
-        | .ref rf => if rf.override.name == r.name then some rf else none
-        | _ => none
-      let overrides ← refs.filterMapM fun rf => match rf.override with
-        | .register ov => do
-          match ← resetBytes ov.reset with
-          | some a => pure (some (rf.name, a))
-          | none => pure none
-        | _ => throw (.panic "ref_must_be_register")
-      let bo ← match r.byteOrder with | some b => pure b | none => throw (.panic "byte_order_unwrap")
-      let fs ← transformFieldSet enums r.fields r.name r.cfg bo r.bitOrder r.sizeBits
-        (← resetBytes r.reset) overrides
-      pure [fs]
-    | .command c => do
-      let bo ← match c.byteOrder with | some b => pure b | none => throw (.panic "byte_order_unwrap")
-      let i ← transformFieldSet enums c.inFields s!"{c.name}FieldsIn" c.cfg bo c.bitOrder c.sizeBitsIn none []
-      let o ← transformFieldSet enums c.outFields s!"{c.name}FieldsOut" c.cfg bo c.bitOrder c.sizeBitsOut none []
-      pure [i, o]
-    | _ => pure []
+  let sets ← objs.mapM (fieldSetsOfObject objs enums)
   pure sets.flatten
 
 /-! ### Blocks and methods (collect_into_blocks, get_method) -/
